@@ -23,7 +23,8 @@ JD = "cuqi/distribution/_joint_distribution.py"
 
 
 def _norm(e) -> str:
-    return unparse(e).replace(" ", "").replace("\n", "")
+    from .common import vstr
+    return vstr(e)
 
 
 def run(chk, repo: Repo):
